@@ -737,6 +737,8 @@ BUILTINS = {
     "hasattr": hasattr,
     "setattr": setattr,
     "id": id,
+    "hash": hash,
+    "callable": callable,
     "object": object,
     "float": float,
     "None": None,
